@@ -1475,8 +1475,14 @@ fn oracle_combo<C: AnsCombo>(rng: &mut Rng, w: u32, s: u32, bps: &[(u32, Vec<u32
                         let msg = format!("{} | export => {} on a buffer of {} words; the same coder exports {} into a Vec", d9,
                             got.clone().map(show_list).unwrap_or("refused (backend full)".into()), cap, show_list(reference.clone()));
                         rep.fail("C01", msg.clone());
-                        rep.fail("C09", msg);
+                        rep.fail("C09", msg.clone());
+                        if got.is_some() {
+                            // words were handed out that are not the prescribed stream (C06 speaks about
+                            // every sink the words can be written to, not only `Vec`)
+                            rep.fail("C06", msg);
+                        }
                     }
+                    rep.eval("C06");
                     // raw binary export: same rule whenever the unbounded export succeeds
                     if let Ok(refb) = AnsCoder::<C::W, C::S>::from_raw_parts(held, st).into_binary() {
                         let refb: Vec<u128> = refb.iter().map(|&w| to_u128(w)).collect();
